@@ -12,7 +12,7 @@ from fractions import Fraction
 import numpy as np
 import z3
 
-from symx import harness, load, rotation, stubs
+from symx import smt, harness, load, rotation, stubs
 from symx.arrays import to_symarray
 from symx.core import Sym, explore, integer, lift, real, _real, _coerce
 
@@ -267,6 +267,15 @@ def sec_sampling(rec, order=1, corner_safe=False, patches=None, free_axis=None, 
             continue
         n_ok += 1
         r = p.result
+        if isinstance(r, stubs.ImgStub):
+            # the task is a plain crop of the tomogram: voxel o of the result is tomogram voxel o + origin, i.e. sampling with the identity matrix
+            okshape = len(r.shape) == 3 and all(z3.is_true(z3.simplify(zi(x) == zi(y))) or smt.prove(h, zi(x) == zi(y)).status == "holds" for x, y in zip(r.shape, shp))
+            rec.fact(f"{tag}/path{i}/crop-has-the-output-shape", bool(okshape), key="C02/sampling/crop-shape", detail={"shape": repr(r.shape)[:120]}, reproduced=True if okshape else rp({})[0])
+            for a in range(3):
+                tomo = o[a] + _real(zi(r.origin[a]))
+                want = c[a] + sum((Rz[a][j] * (o[j] - (_real(zi(shp[j])) - 1) / 2) for j in range(3)), z3.RealVal(0))
+                rec_query(f"{tag}/path{i}/rule-axis{a} (plain crop)", h, tomo == want, key="C02/sampling/rule", names=names, replay=rp)
+            continue
         if not isinstance(r, stubs.Sampled) or r.kind != "affine_transform":
             rec.error(f"{tag}/path{i}", f"task did not end in affine_transform: {r!r}")
             continue
@@ -356,6 +365,10 @@ def sec_plumbing2(rec, patches=None):
         h = hyps + [p.condition()]
         rec.fact(f"plumbing2/path{i}/n-tasks", len(p.result) == 2, key="C02/plumbing/task-count", detail={"n": len(p.result)})
         for k, r in enumerate(p.result[:2]):
+            if not isinstance(r, stubs.Sampled):
+                rec.fact(f"plumbing2/path{i}/task{k}-is-an-interpolation-of-the-tomogram", False, key="C02/plumbing/molecule-k-task-k", detail={"got": repr(r)[:120]},
+                         reproduced=_replay_sampling(3, shp, False)({})[0])
+                continue
             for a in range(3):
                 tomo = zsum_row(r.matrix, a, o) + _real(zi(r.src.origin[a]))
                 want = P[k][a].e / scale.e + sum((Rs[k][a][j].e * (o[j] - Fraction(shp[j] - 1, 2)) for j in range(3)), z3.RealVal(0))
